@@ -1074,3 +1074,99 @@ func invalidDefScenario(g *gen, idx int) *scenario {
 	}
 	return s
 }
+
+// ------------------------------------------------------------------------------------------------
+// family: engine/asset-order — accessors of the asset collections that answer "the first ..." or "all ...":
+// FieldAssets.FirstOfType (parent state / district field used to resolve a bare district / ward name), GroupAssets.All
+// (order in which query based groups are re-evaluated = order of the groups in the event and on the contact),
+// ChannelAssets.GetForURN (first channel with the scheme).  Assets define SEVERAL fields of one location type, a
+// location hierarchy in which a bare name exists under only some of the candidate parents (and under two of them),
+// several query groups that change together, two channels for the same scheme; the session assets are built afresh
+// for every execution.
+
+func assetOrderScenario(g *gen, idx int) *scenario {
+	f := newFlowB(g, "Asset order")
+	states := []string{"Kigali City", "Eastern Province", "Northern Province"}
+	// district -> wards; "Gisozi" only under Gasabo, "Kimisagara" only under Nyarugenge, "Remera" under both Gasabo and Rwamagana
+	hierarchy := []any{obj{"name": "Rwanda", "aliases": []string{"Ruanda"}, "children": []any{
+		obj{"name": "Kigali City", "children": []any{
+			obj{"name": "Gasabo", "children": []any{obj{"name": "Gisozi"}, obj{"name": "Ndera"}, obj{"name": "Remera"}}},
+			obj{"name": "Nyarugenge", "children": []any{obj{"name": "Kimisagara"}, obj{"name": "Central"}}}}},
+		obj{"name": "Eastern Province", "children": []any{
+			obj{"name": "Rwamagana", "children": []any{obj{"name": "Remera"}, obj{"name": "Kigabiro"}}},
+			obj{"name": "Central", "children": []any{obj{"name": "Gisozi East"}}}}},
+		obj{"name": "Northern Province", "children": []any{
+			obj{"name": "Gasabo", "children": []any{obj{"name": "Bukure"}}}}},
+	}}}
+	nd := g.r.Range(2, 3) // district fields
+	ns := g.r.Range(1, 2) // state fields
+	fieldDefs := []any{}
+	var stateKeys, districtKeys []string
+	for i := 0; i < ns; i++ {
+		k := []string{"state", "birth_state"}[i]
+		stateKeys = append(stateKeys, k)
+		fieldDefs = append(fieldDefs, obj{"uuid": g.uuid(), "key": k, "name": strings.ToUpper(k[:1]) + k[1:], "type": "state"})
+	}
+	for i := 0; i < nd; i++ {
+		k := []string{"home_district", "work_district", "birth_district"}[i]
+		districtKeys = append(districtKeys, k)
+		fieldDefs = append(fieldDefs, obj{"uuid": g.uuid(), "key": k, "name": strings.ToUpper(k[:1]) + k[1:], "type": "district"})
+	}
+	fieldDefs = append(fieldDefs, obj{"uuid": g.uuid(), "key": "ward", "name": "Ward", "type": "ward"},
+		obj{"uuid": g.uuid(), "key": "new_district", "name": "New District", "type": "district"},
+		obj{"uuid": g.uuid(), "key": "age", "name": "Age", "type": "number"})
+	// shuffle the field order in the assets (the order IS an input)
+	for i := len(fieldDefs) - 1; i > 0; i-- {
+		j := g.r.Intn(i + 1)
+		fieldDefs[i], fieldDefs[j] = fieldDefs[j], fieldDefs[i]
+	}
+	// the contact holds a different state / district in each field
+	districts := [][2]string{{"Kigali City", "Gasabo"}, {"Kigali City", "Nyarugenge"}, {"Eastern Province", "Rwamagana"}, {"Eastern Province", "Central"}, {"Northern Province", "Gasabo"}}
+	perm := g.r.Intn(len(districts))
+	cfields := obj{}
+	for i, k := range stateKeys {
+		st := states[(perm+i)%len(states)]
+		cfields[k] = obj{"text": st, "state": "Rwanda > " + st}
+	}
+	for i, k := range districtKeys {
+		d := districts[(perm+i*2)%len(districts)]
+		cfields[k] = obj{"text": d[1], "state": "Rwanda > " + d[0], "district": "Rwanda > " + d[0] + " > " + d[1]}
+	}
+	cfields["age"] = obj{"text": "17", "number": 17}
+	// query groups that all change when age is set; several with the same condition
+	groupDefs := []any{}
+	var groupUUIDs []obj
+	for i, q := range []string{"age > 18", "age >= 20", "age > 10", "age < 18", "age != \"\""} {
+		gu := g.uuid()
+		groupDefs = append(groupDefs, obj{"uuid": gu, "name": fmt.Sprintf("%s %d", groupNames[i], i), "query": q})
+		groupUUIDs = append(groupUUIDs, obj{"uuid": gu, "name": fmt.Sprintf("%s %d", groupNames[i], i)})
+	}
+	for i := len(groupDefs) - 1; i > 0; i-- {
+		j := g.r.Intn(i + 1)
+		groupDefs[i], groupDefs[j] = groupDefs[j], groupDefs[i]
+	}
+	channels := []any{
+		obj{"uuid": "57f1078f-88aa-46f4-a59a-948a5739c03d", "name": "Android", "address": "+17036975131", "schemes": []string{"tel"}, "roles": []string{"send", "receive"}, "country": "US"},
+		obj{"uuid": "8e21f093-99aa-413b-b55b-758b54308fcb", "name": "Twilio", "address": "+12065550000", "schemes": []string{"tel"}, "roles": []string{"send", "receive"}, "country": "US"},
+		obj{"uuid": "4bb288a0-7fca-4da1-abe8-59a593aff648", "name": "Vonage", "address": "+12065551111", "schemes": []string{"tel", "whatsapp"}, "roles": []string{"send"}, "country": "RW"}}
+	bare := hx.Pick(g.r, []string{"Gisozi", "Kimisagara", "Remera", "Central", "Ndera", "Kigabiro", "Bukure", "gisozi"})
+	bareDistrict := hx.Pick(g.r, []string{"Gasabo", "Central", "Rwamagana", "Nyarugenge"})
+	acts := []any{
+		obj{"uuid": g.uuid(), "type": "set_contact_field", "field": obj{"key": "ward", "name": "Ward"}, "value": bare},
+		obj{"uuid": g.uuid(), "type": "set_contact_field", "field": obj{"key": "new_district", "name": "New District"}, "value": bareDistrict},
+		obj{"uuid": g.uuid(), "type": "set_contact_field", "field": obj{"key": "age", "name": "Age"}, "value": "25"},
+		obj{"uuid": g.uuid(), "type": "send_msg", "text": "ward @fields.ward district @fields.new_district groups @(join(foreach(contact.groups, extract, \"name\"), \",\")) @(json(contact.fields)) channel @contact.channel.name"},
+	}
+	f.addNode(acts, nil, 1)
+	def := f.finish()
+	assetsObj := obj{"flows": []any{def}, "fields": fieldDefs, "groups": groupDefs, "channels": channels, "locations": hierarchy}
+	contact := obj{"uuid": g.uuid(), "id": 4321, "name": "Ann " + g.word(), "language": "eng", "status": "active",
+		"created_on": "2020-01-01T00:00:00.000000000-00:00", "urns": []string{"tel:+12065551212", "whatsapp:250788123123"}, "fields": cfields,
+		"groups": []any{groupUUIDs[3], groupUUIDs[4], groupUUIDs[2]}}
+	trigger := obj{"type": "manual", "triggered_on": "2024-01-01T00:00:00.000000000-00:00", "environment": envJSON,
+		"flow": obj{"uuid": f.uuid, "name": f.name}, "contact": contact}
+	p := &engineParams{Feature: "asset-order", Assets: mustJSON(assetsObj), Trigger: mustJSON(trigger)}
+	s := &scenario{Family: "engine/asset-order", Index: idx, Params: p, Nontrivial: true}
+	s.run = func() (map[string][]byte, error) { return runEngine(p) }
+	return s
+}
